@@ -101,6 +101,14 @@ def run(ck):
             random.seed(burn); np.random.seed(burn); torch.manual_seed(burn)
             if burn:
                 torch.randn(burn); np.random.rand(burn); [random.random() for _ in range(burn % 101)]
+                # other estimators come into existence (and are used) in the same process before the compared fit: one with the library's defaults, one with
+                # explicit parameters — the compared fit depends on its own seed, data and configuration only
+                other = xr.xRFM(verbose=False)
+                other2 = xr.xRFM(rfm_params=xr.default_rfm_params(iters=2, reg=1e-1, bandwidth=7.0), verbose=False, max_leaf_size=25)
+                if burn > 1000:
+                    Do = data(task, 70, d)
+                    with xr.quiet():
+                        other2.fit(*Do); other.max_leaf_size = 30; other.fit(*Do)
             m = xr.xRFM(**copy.deepcopy(ctor))           # random_state seeds the global generators
             with xr.quiet():
                 m.fit(*D)
